@@ -37,7 +37,8 @@ def reset_equals_new(cls, reset, observe, init_args=()):
         if k is None:
             raise Unsupported("no contract for %s.%s" % (cls, reset))
         s1 = apply_contract(ip, st, k, [a], {})[0][0]
-        s2, b = instantiate(ip, s1, Fun("class", name=cls, mod=None), list(init_args), {})[0]
+        args = init_args(ip, s1, a) if callable(init_args) else list(init_args)      # (configuration taken from `a`)
+        s2, b = instantiate(ip, s1, Fun("class", name=cls, mod=None), args, {})[0]
         for e in observe:
             ea, eb = e.replace("self", "a_"), e.replace("self", "b_")
             ip.emit("lemma", "reset-equals-new-element: %s" % e, s2,
@@ -46,8 +47,88 @@ def reset_equals_new(cls, reset, observe, init_args=()):
     return build
 
 
+def reset_forgets_history(cls, reset, same_config, observe):
+    """lemma builder for an element whose constructor is not under contract: two elements with the same configuration
+    (`same_config`: fields holding the same component elements) and ARBITRARY, different histories (own field values, own
+    component states) are indistinguishable after `reset` -- every expression in `observe` (over self and the component
+    states elstate(..), evaluated in each of the two post-states) has the same value.  Together with `the context of a new element is {}` (what
+    __init__ assigns) and the element interface (el_reset(e) is the state of a new e) this is `reset() equals a new element`."""
+    from pyvc.calls import eval_spec
+    from pyvc.interp import VC, Unsupported
+    from pyvc.smt import FALSE
+    from pyvc.sym import Opaque
+
+    def build(ip, st):
+        cs = ip.contracts.classes[cls]
+        k = ip.contracts.find_method(cls, reset)
+        if k is None or k.cases or k.requires or k.raises:
+            raise Unsupported("reset_forgets_history: %s.%s needs one plain contract" % (cls, reset))
+        ip.reg.need("Obj")
+        ip.reg.need("St")
+        objs, posts = {}, {}
+        for tag in ("a", "b"):
+            o = ip.make("Self[%s]" % cls, tag, st)
+            objs[tag] = o
+            for inv in cs.invariant:
+                st.assume(eval_spec(ip, st, {"self": o}, inv))
+        for f in same_config:
+            st.assume(eval_spec(ip, st, {"a_": objs["a"], "b_": objs["b"]}, "same(a_.%s, b_.%s)" % (f, f)))
+        ip.entry = st.copy()
+        ip.oldst = ip.entry
+        for tag in ("a", "b"):
+            # the post-state of reset() on this element: modified fields and the component states are arbitrary but for `ensures`
+            from pyvc.calls import do_havoc
+            env = {"self": objs[tag]}
+            do_havoc(ip, st, k, env)
+            env["$elst"] = Opaque(ip.reg.new("elst_" + tag, "(Array Obj St)"))
+            env["result"] = None
+            for cl in k.ensures:
+                st.assume(eval_spec(ip, st, env, cl, old=ip.entry))
+            posts[tag] = env["$elst"]
+        for e in observe:
+            va = eval_value(ip, st, {"self": objs["a"], "$elst": posts["a"]}, e)
+            vb = eval_value(ip, st, {"self": objs["b"], "$elst": posts["b"]}, e)
+            ip.emit("lemma", "reset-forgets-history: %s" % e, st,
+                    view_eq(ip, st, va, vb) if is_view(va) else ip.py_eq(st, va, vb))
+        ip.vcs.append(VC("cover requires", "cover", list(st.pc), FALSE, ""))
+    return build
+
+
+def eval_value(ip, st, env, text):
+    """value of a spec expression (not its truth)"""
+    from pyvc.calls import spec_state
+    ip.spec_mode += 1
+    try:
+        return ip.ev1(ip.contracts_parse(text), spec_state(st, env))
+    finally:
+        ip.spec_mode -= 1
+
+
+def is_view(v):
+    from pyvc.sym import View
+    return isinstance(v, View)
+
+
+def view_eq(ip, st, va, vb):
+    """pointwise equality of two symbolic sequences of element states (same length, every index)"""
+    from pyvc.smt import T, EQ, AND
+    q = T("lq%d" % next(ip.bound), "Int")
+    ip.spec_mode += 1            # the items of a comprehension are evaluated on demand: still specification code
+    try:
+        body = ip.py_eq(st, va.get(q), vb.get(q))
+    finally:
+        ip.spec_mode -= 1
+    return AND(EQ(va.len, vb.len),
+               T("(forall ((%s Int)) (=> (and (<= 0 %s) (< %s %s)) %s))" % (q.s, q.s, q.s, va.len.s, body.s), "Bool"))
+
+
 def register(ix):
     register_dsum(ix)
+    register_vmc(ix)
+    register_histogram_el(ix)
+    register_vectorize(ix)
+    register_storefilled(ix)
+    register_groupby(ix)
 
 
 # ---------------------------------------------------------------------------------------------- DSum
@@ -96,3 +177,363 @@ def register_dsum(ix):
         reset_equals_new("DSum", "reset", ["self._total", "self._cur_context", "self._dcontext.traps_inexact"]),
         notes="observable state: the total, the current context and the Inexact trap of the decimal context (with the trap "
               "set every addition is exact whatever precision earlier fills left behind, so `prec` is not observable)"))
+
+
+# ---------------------------------------------------------------------------------------------- VarianceMeanCount
+def register_vmc(ix):
+    """`Calculate the sample variance of input values`: with Q = sum of squares, S = sum, n = count of the filled values
+    compute yields variance_mean_count(Q/n - (S/n)**2 [* n/(n-1) if corrected], S/n, n).  The two inner sums are Sum
+    elements (the default) that only ever see bare data: their own context stays empty -- the object invariant, and what
+    `sum_sq / count` in compute relies on.  The two sums are different objects (no aliasing between the fields)."""
+    # a Sum whose context is empty yields the bare total: the view of Sum.compute that VarianceMeanCount.compute uses
+    ix.add_class(ClassSpec("SumPlain", ME, fields={"_total": "Real", "_cur_context": "Dict"}, alias_of="Sum",
+                           invariant=["isdict(self._cur_context)", "not self._cur_context"]))
+    ix.add(Contract(ME, "Sum.compute", qualkey="SumPlain.compute", name="Sum.compute[empty context]", props=["C09"],
+                    params={"self": "Self[SumPlain]"}, generator=True, yields="Real",
+                    requires=["not self._cur_context"],
+                    ensures=["len(out) == 1", "out[0] == self._total"]))
+    F = {"_sum_sq": "Inst[SumPlain]", "_sum": "Inst[SumPlain]", "_pass_on_empty": "Bool", "_corrected": "Bool",
+         "_count": "Int", "_cur_context": "Dict"}
+    INNER = ["isdict(self._sum_sq._cur_context)", "not self._sum_sq._cur_context",
+             "isdict(self._sum._cur_context)", "not self._sum._cur_context"]
+    EMPTY = ["self._sum_sq._cur_context == emptydict()", "self._sum._cur_context == emptydict()"]
+    ix.add_class(ClassSpec("VarianceMeanCount", ME, fields=F,
+                           invariant=["isdict(self._cur_context)", "self._count >= 0"] + INNER))
+    ix.add_class(ClassSpec("VarianceMeanCount0", ME, fields={}, alias_of="VarianceMeanCount"))
+    ix.add(Contract(
+        ME, "VarianceMeanCount.__init__", props=["C09"],
+        params={"self": "Self[VarianceMeanCount0]", "sum_sq": "None", "sum_": "None", "corrected": "Bool", "pass_on_empty": "Bool"},
+        defaults={"sum_sq": None, "sum_": None, "corrected": True, "pass_on_empty": False},
+        ensures=["self._sum_sq._total == 0", "self._sum._total == 0", "self._sum_sq is not self._sum", "self._count == 0",
+                 "self._cur_context == emptydict()", "self._corrected == corrected", "self._pass_on_empty == pass_on_empty",
+                 # `If they both can be reset, this object has also a reset() method`
+                 "has_attr(self, 'reset')"] + INNER + EMPTY,
+        modifies=["self._sum_sq", "self._sum", "self.reset", "self._pass_on_empty", "self._corrected", "self._count",
+                  "self._cur_context"]))
+    FILLED = ["self._sum_sq._total", "self._sum_sq._cur_context", "self._sum._total", "self._sum._cur_context",
+              "self._count", "self._cur_context"]
+    ix.add(Contract(
+        ME, "VarianceMeanCount.fill", props=["C09"],
+        cases=[
+            Contract(ME, "VarianceMeanCount.fill", name="VarianceMeanCount.fill[(data, context)]",
+                     params={"self": "Self[VarianceMeanCount]", "value": PAIR}, requires=["isdict(value[1])"],
+                     ensures=["self._sum_sq._total == old(self._sum_sq._total) + value[0] * value[0]",
+                              "self._sum._total == old(self._sum._total) + value[0]",
+                              "self._count == old(self._count) + 1", "self._cur_context is value[1]"],
+                     modifies=FILLED),
+            Contract(ME, "VarianceMeanCount.fill", name="VarianceMeanCount.fill[bare data]",
+                     params={"self": "Self[VarianceMeanCount]", "value": "Real"},
+                     ensures=["self._sum_sq._total == old(self._sum_sq._total) + value * value",
+                              "self._sum._total == old(self._sum._total) + value",
+                              "self._count == old(self._count) + 1", "self._cur_context == emptydict()"],
+                     modifies=FILLED),
+        ]))
+    MEAN = "(self._sum._total / self._count)"
+    VAR0 = "(self._sum_sq._total / self._count - %s * %s)" % (MEAN, MEAN)
+    VAR = "(%s * (self._count / (self._count - 1)) if self._corrected else %s)" % (VAR0, VAR0)
+    RES = "{r}[0] == %s and {r}[1] == %s and {r}[2] == self._count and len({r}) == 3" % (VAR, MEAN)
+    ix.add(Contract(
+        ME, "VarianceMeanCount.compute", props=["C09", "C04"],
+        params={"self": "Self[VarianceMeanCount]"}, generator=True, yields="Any",
+        # `If no values were filled ... LenaZeroDivisionError is raised.  This can be changed to yielding nothing if
+        # pass_on_empty ...  If the sample contained only one element and corrected is True, [it] is always raised`
+        raises={"LenaZeroDivisionError": "(self._count == 0 and not self._pass_on_empty) or (self._count == 1 and self._corrected)"},
+        at_yield=["self._cur_context implies is_deep_copy(yielded[1]) and is_fresh(yielded[1])"],
+        ensures=["self._count == 0 implies len(out) == 0",
+                 "self._count != 0 implies len(out) == 1",
+                 "self._count != 0 and not self._cur_context implies " + RES.format(r="out[0]"),
+                 "self._count != 0 and self._cur_context implies len(out[0]) == 2 and out[0][1] == self._cur_context",
+                 "self._count != 0 and self._cur_context implies " + RES.format(r="out[0][0]")]))
+    ix.add(Contract(ME, "VarianceMeanCount._reset", props=["C09"],
+                    params={"self": "Self[VarianceMeanCount]"},
+                    ensures=["self._sum_sq._total == 0", "self._sum._total == 0", "self._count == 0",
+                             "self._cur_context == emptydict()"] + EMPTY,
+                    modifies=FILLED))
+    ix.lemmas.append(Lemma(
+        "VarianceMeanCount: reset() equals a newly constructed element", ME, ["C09"],
+        reset_equals_new("VarianceMeanCount", "_reset",
+                         ["self._sum_sq._total", "self._sum_sq._cur_context", "self._sum._total", "self._sum._cur_context",
+                          "self._count", "self._cur_context"]),
+        notes="over the contracts of _reset (installed as reset by __init__) and __init__ with default arguments; the "
+              "configuration (corrected, pass_on_empty) is not state"))
+
+
+# ---------------------------------------------------------------------------------------------- Histogram (element)
+def register_histogram_el(ix):
+    """`An element to produce histograms`: fill hands the data part to the histogram structure (histogram.fill of C06 with
+    the default weight 1) and keeps the context of the value; compute yields (histogram, deep copy of that context);
+    reset installs a NEW structure with the initial bins (so that histograms yielded earlier stay intact)."""
+    import contracts.C06 as C06
+    # the source default `weight=1` of histogram.fill (Histogram.fill calls it with the data only)
+    for case in ix.by_key[(HI, "histogram.fill")].cases:
+        case.defaults.setdefault("weight", 1)
+    # the constructor stores the very lists it is given (`self.edges = edges`, `self.bins = bins`): stated as identity so
+    # that callers see the aliasing (Histogram.reset must hand over a COPY of its initial bins)
+    k = ix.by_key.get((HI, "histogram.__init__"))
+    for case in (k.cases if k is not None and k.cases else []):
+        if "self.edges is edges" not in case.ensures:
+            case.ensures.append("self.edges is edges")
+        if case.params.get("bins", "None") != "None" and "self.bins is bins" not in case.ensures:
+            case.ensures.append("self.bins is bins")
+    F1 = {"_hist": "Inst[histogram_d1]", "_cur_context": "Dict", "_make_bins": "None", "_initial_bins": "None",
+          "_initial_value": "Real"}
+    ix.add_class(ClassSpec("Histogram", HI, fields=F1, invariant=["isdict(self._cur_context)"] + [
+        i.replace("self.", "self._hist.") for i in ix.classes["histogram_d1"].invariant]))
+    F2 = dict(F1, _hist="Inst[histogram_d2]")
+    ix.add_class(ClassSpec("Histogram_d2", HI, fields=F2, alias_of="Histogram", invariant=["isdict(self._cur_context)"] + [
+        i.replace("self.", "self._hist.") for i in ix.classes["histogram_d2"].invariant]))
+    H = "self._hist"
+    FILL1 = ["len({h}.bins) == old(len({h}.bins))".format(h=H),
+             "all({h}.bins[i] == old({h}.bins[i]) + (1 if ({h}.edges[i] <= {d} < {h}.edges[i + 1]) else 0)"
+             " for i in range(len({h}.bins)))",
+             "{h}.n_out_of_range == old({h}.n_out_of_range) + (0 if ({h}.edges[0] <= {d} < {h}.edges[len({h}.edges) - 1]) else 1)",
+             "{h} is old({h})"]
+    IN2 = "({h}.edges[0][i] <= {d}[0] < {h}.edges[0][i + 1] and {h}.edges[1][j] <= {d}[1] < {h}.edges[1][j + 1])"
+    RNG2 = "({h}.edges[0][0] <= {d}[0] < {h}.edges[0][len({h}.edges[0]) - 1] and {h}.edges[1][0] <= {d}[1] < {h}.edges[1][len({h}.edges[1]) - 1])"
+    FILL2 = ["len({h}.bins) == old(len({h}.bins))",
+             "all(len({h}.bins[i]) == old(len({h}.bins[i])) for i in range(len({h}.bins)))",
+             "all(all({h}.bins[i][j] == old({h}.bins[i][j]) + (1 if " + IN2 + " else 0)"
+             " for j in range(len({h}.bins[i]))) for i in range(len({h}.bins)))",
+             "{h}.n_out_of_range == old({h}.n_out_of_range) + (0 if " + RNG2 + " else 1)",
+             "{h} is old({h})"]
+    MOD = ["self._hist.bins", "self._hist.n_out_of_range", "self._cur_context"]
+
+    def fill_case(name, selfty, valty, data, clauses, ctx, req=()):
+        return Contract(HI, "Histogram.fill", name="Histogram.fill[%s]" % name,
+                        params={"self": selfty, "value": valty}, requires=list(req),
+                        ensures=[c.format(h=H, d=data) for c in clauses] + [ctx], modifies=MOD)
+    ix.add(Contract(
+        HI, "Histogram.fill", props=["C09", "C06"],
+        cases=[
+            fill_case("dim=1, (data, context)", "Self[Histogram]", PAIR, "value[0]", FILL1,
+                      "self._cur_context is value[1]", ["isdict(value[1])"]),
+            fill_case("dim=1, bare data", "Self[Histogram]", "Real", "value", FILL1, "self._cur_context == emptydict()"),
+            fill_case("dim=2, (data, context)", "Self[Histogram_d2]", "Tuple[Tuple[Real,Real],Dict]", "value[0]", FILL2,
+                      "self._cur_context is value[1]", ["isdict(value[1])"]),
+            fill_case("dim=2, bare data", "Self[Histogram_d2]", "Tuple[Real,Real]", "value", FILL2,
+                      "self._cur_context == emptydict()"),
+        ]))
+    ix.add(Contract(
+        HI, "Histogram.compute", props=["C09", "C04"],
+        params={"self": "Self[Histogram]"}, generator=True, yields="Any",
+        # `Yield histogram with context`: the context handed out is a deep copy (also when it is empty)
+        at_yield=["is_deep_copy(yielded[1])", "is_fresh(yielded[1])", "yielded[0] is self._hist"],
+        ensures=["len(out) == 1", "len(out[0]) == 2", "out[0][0] is self._hist", "out[0][1] == self._cur_context"]))
+    # ---- reset / __init__ (one-dimensional; histogram.__init__ and init_bins are under contract in P_hist.py)
+    ix.add_class(ClassSpec("Histogram0", HI, fields={}, alias_of="Histogram"))
+    ix.add_class(ClassSpec("Histogram_ib", HI, fields=dict(F1, _initial_bins="Lst[Real]"), alias_of="Histogram",
+                           invariant=ix.classes["Histogram"].invariant + ["len(self._initial_bins) == len(self._hist.edges) - 1"]))
+    NEW = ["self._hist is not old(self._hist)",          # `a new structure ... earlier yielded histograms stay intact`
+           "self._hist.edges == old(self._hist.edges)", "len(self._hist.bins) == len(self._hist.edges) - 1",
+           "self._hist.n_out_of_range == 0", "self._hist.dim == 1", "self._cur_context == emptydict()"]
+    ix.add(Contract(
+        HI, "Histogram.reset", props=["C09"],
+        cases=[
+            Contract(HI, "Histogram.reset", name="Histogram.reset[initial value]",
+                     params={"self": "Self[Histogram]"},
+                     ensures=NEW + ["all(self._hist.bins[i] == self._initial_value for i in range(len(self._hist.bins)))"],
+                     modifies=["self._hist", "self._cur_context"]),
+        ]))
+    ix.add(Contract(
+        HI, "Histogram.reset", qualkey="Histogram_ib.reset", name="Histogram.reset[initial bins]", props=["C09"],
+        params={"self": "Self[Histogram_ib]"},
+        # the initial bins are copied: filling the new structure must not change them
+        ensures=NEW + ["self._hist.bins == self._initial_bins", "self._hist.bins is not self._initial_bins"],
+        modifies=["self._hist", "self._cur_context"]))
+    BAD_EDGES = "len(edges) <= 1 or not " + C06.incr("edges")
+    ix.add(Contract(
+        HI, "Histogram.__init__", props=["C09"],
+        params={"self": "Self[Histogram0]", "edges": "Lst[Real]", "bins": "None", "make_bins": "None", "initial_value": "Real"},
+        defaults={"bins": None, "make_bins": None, "initial_value": 0},
+        raises={"LenaValueError": BAD_EDGES},
+        ensures=["self._hist.edges == edges", "len(self._hist.bins) == len(edges) - 1",
+                 "all(self._hist.bins[i] == initial_value for i in range(len(self._hist.bins)))",
+                 "self._hist.n_out_of_range == 0", "self._hist.dim == 1", "self._cur_context == emptydict()",
+                 "self._initial_value == initial_value", "self._initial_bins is None", "self._make_bins is None"],
+        modifies=["self._hist", "self._cur_context", "self._initial_bins", "self._initial_value", "self._make_bins"]))
+
+    def same_config(ip, st, a):
+        from pyvc.sym import NONE
+        h = st.heap[st.heap[a.cid].fields["_hist"].cid]
+        return [h.fields["edges"], NONE, NONE, st.heap[a.cid].fields["_initial_value"]]
+    ix.lemmas.append(Lemma(
+        "Histogram: reset() equals a newly constructed element", HI, ["C09"],
+        reset_equals_new("Histogram", "reset", ["self._hist.edges", "self._hist.bins", "self._hist.n_out_of_range",
+                                                "self._hist.dim", "self._cur_context"], same_config),
+        notes="one-dimensional, bins from the initial value; the new element is built from the same edges and initial value"))
+
+
+# ---------------------------------------------------------------------------------------------- Vectorize
+def register_vectorize(ix):
+    """`Apply an algorithm to a vector component-wise`.  The component sequences are abstract FillCompute elements
+    (el_fill / el_compute / el_reset denotations, DESIGN 2.3); they are pairwise different objects (the object invariant:
+    __init__ makes deep copies of one sequence, or takes a list of the user's sequences).  `construct` is None (default)."""
+    DISTINCT = ("all(all(implies(i != j, self._seqs[i] is not self._seqs[j]) for j in range(len(self._seqs))) "
+                "for i in range(len(self._seqs)))")
+    ix.add_class(ClassSpec("Vectorize", ME,
+                           fields={"_seqs": "Lst[Obj]", "_fc_els": "Lst[Obj]", "_construct": "None", "_dim": "Int",
+                                   "_cur_context": "Dict"},
+                           invariant=["isdict(self._cur_context)", DISTINCT]))
+    FILLED = "elstate(self._seqs[k]) == el_fill(self._seqs[k], old(elstate(self._seqs[k])), {d}[k])"
+
+    def fill_case(name, valty, d, ctx, req=()):
+        return Contract(
+            ME, "Vectorize.fill", name="Vectorize.fill[%s]" % name, ghost={"elstate": True},
+            params={"self": "Self[Vectorize]", "val": valty}, requires=list(req),
+            # `can raise if data is not of a sufficient length`
+            raises={"IndexError": "len(%s) < len(self._seqs)" % d},
+            loops={0: LoopSpec(invariant=[
+                "_i <= len(%s)" % d,
+                "all(%s for k in range(_i))" % FILLED.format(d=d),
+                "all(implies(k >= _i, elstate(self._seqs[k]) == old(elstate(self._seqs[k]))) for k in range(len(self._seqs)))"])},
+            # every component sequence is filled exactly once, with its own component of the data
+            at_call={"fill": ["call_args[0] == %s[ind]" % d, "seq is self._seqs[ind]", "ind == _i"]},
+            ensures=["all(%s for k in range(len(self._seqs)))" % FILLED.format(d=d), ctx],
+            modifies=["self._cur_context"])
+    ix.add(Contract(
+        ME, "Vectorize.fill", props=["C09"],
+        cases=[fill_case("(data, context)", "Tuple[Lst[V],Dict]", "val[0]", "self._cur_context is val[1]", ["isdict(val[1])"]),
+               fill_case("bare data", "Lst[V]", "val", "self._cur_context == emptydict()")]))
+    # ---- compute: row j of the output holds the j-th result of every component that has one, None for the others
+    RK = "el_compute(self._seqs[k], elstate(self._seqs[k]))"
+    ROW = ("isinstance({r}, tuple) and len({r}) == len(self._seqs) and "
+           "all(implies(yield_count() < len(%s), {r}[k] == %s[yield_count()]) and "
+           "implies(yield_count() >= len(%s), {r}[k] is None) for k in range(len(self._seqs)))" % (RK, RK, RK))
+    ix.add(Contract(
+        ME, "Vectorize.compute", props=["C09", "C04"], ghost={"elstate": True},
+        params={"self": "Self[Vectorize]"}, generator=True, yields="Any",
+        loops={0: LoopSpec(invariant=["pulled(it) == yield_count()"], decreases="len(content(it)) - pulled(it)")},
+        at_yield=[
+            # C04: every yielded context is a deep copy made for this very yield (in this iteration of the loop)
+            "self._cur_context implies is_deep_copy(yielded[1]) and made_in_iteration(yielded[1], 0)",
+            "self._cur_context implies len(yielded) == 2 and yielded[1] == self._cur_context",
+            "self._cur_context implies " + ROW.format(r="yielded[0]"),
+            "not self._cur_context implies " + ROW.format(r="yielded")],
+        # `the longest output is yielded (the others are padded with None)`: as many rows as the longest component has
+        ensures=["all(len(%s) <= yield_count() for k in range(len(self._seqs)))" % RK,
+                 "len(self._seqs) > 0 implies any(len(%s) == yield_count() for k in range(len(self._seqs)))" % RK,
+                 "len(self._seqs) == 0 implies yield_count() == 0"]))
+    ix.add(Contract(
+        ME, "Vectorize._reset", props=["C09"], ghost={"elstate": True},
+        params={"self": "Self[Vectorize]"},
+        loops={0: LoopSpec(invariant=["all(elstate(self._fc_els[k]) == el_reset(self._fc_els[k]) for k in range(_i))"])},
+        ensures=["all(elstate(self._fc_els[k]) == el_reset(self._fc_els[k]) for k in range(len(self._fc_els)))",
+                 "self._cur_context == emptydict()"],
+        modifies=["self._cur_context"]))
+    ix.lemmas.append(Lemma(
+        "Vectorize: reset() forgets the history", ME, ["C09"],
+        reset_forgets_history("Vectorize", "_reset", ["_seqs", "_fc_els"],
+                              ["self._cur_context", "[elstate(self._fc_els[k]) for k in range(len(self._fc_els))]"]),
+        notes="Vectorize.__init__ is not under contract (it reads optional attributes of abstract elements); the lemma is "
+              "over the contract of _reset only: context {} (what __init__ assigns) and every component in its el_reset state"))
+
+
+# ---------------------------------------------------------------------------------------------- StoreFilled.compute
+def register_storefilled(ix):
+    """`Yield the collected values`: as one group -- a COPY of the list (`if we yield several times without reset, the
+    results will be interdependent`) -- or one by one, in the order of the fills.  (fill / reset: C09.py.)"""
+    F = {"group": "Lst[V]", "_yield_as_a_group": "Bool"}
+    ix.add_class(ClassSpec("StoreFilled_group", FE, fields=F, alias_of="StoreFilled", invariant=["self._yield_as_a_group"]))
+    ix.add_class(ClassSpec("StoreFilled_single", FE, fields=F, alias_of="StoreFilled", invariant=["not self._yield_as_a_group"]))
+    ix.add(Contract(
+        FE, "StoreFilled.compute", props=["C09", "C04"],
+        cases=[
+            Contract(FE, "StoreFilled.compute", name="StoreFilled.compute[as a group]",
+                     params={"self": "Self[StoreFilled_group]"}, generator=True, yields="Any",
+                     at_yield=["is_fresh(yielded)", "yielded is not self.group"],
+                     ensures=["len(out) == 1", "out[0] == self.group", "out[0] is not self.group",
+                              "self.group == old(self.group)"]),
+            Contract(FE, "StoreFilled.compute", name="StoreFilled.compute[one by one]",
+                     params={"self": "Self[StoreFilled_single]"}, generator=True, yields="V",
+                     loops={0: LoopSpec(invariant=["len(out) == _i", "all(out[k] == self.group[k] for k in range(_i))"])},
+                     at_yield=["yielded == self.group[len(out)]"],
+                     ensures=["len(out) == len(self.group)", "all(out[k] == self.group[k] for k in range(len(out)))",
+                              "self.group == old(self.group)"]),
+        ]))
+
+
+# ---------------------------------------------------------------------------------------------- GroupBy
+CF = "lena/context/functions.py"
+IE = "lena/context/include_exclude_tree.py"
+
+
+def _ufun_spec(name, argsorts, ressort):
+    """an uninterpreted specification function over Val / Obj arguments"""
+    def fn(ip, st, pos, kws):
+        from pyvc.dicts import dterm
+        from pyvc.smt import T
+        from pyvc.sym import Opaque, Bool as SBool
+        f = ip.reg.ufun(name, argsorts, ressort)
+        args = []
+        for v, so in zip(pos, argsorts):
+            args.append(dterm(ip, st, v).s if so == "Val" else v.t.s)
+        t = T("(%s %s)" % (f, " ".join(args)), ressort)
+        return SBool(t) if ressort == "Bool" else Opaque(t)
+    return fn
+
+
+def register_groupby(ix):
+    """`Group values`: groups maps a key -- a string computed from the CONTEXT of the value (the part selected by the
+    include / exclude tree built from group_by and merge, rendered by to_string) -- to the list of the values with that
+    key, in the order of the fills.  The key function is uninterpreted here:  key(val) = json_canonical(iet_get(tree, ctx))
+    (to_string: P_ctx.py; IncludeExcludeTree.get: assumed to be a function of the tree and the context)."""
+    # vocabulary of P_ctx.py (registered there after this module; the same names are used if it is absent)
+    ix.spec_names.setdefault("json_canonical", _ufun_spec("json_canonical", ["Val"], "Key"))
+    ix.spec_names.setdefault("json_unserializable", _ufun_spec("json_unserializable", ["Val"], "Bool"))
+    ix.spec_names["iet_get"] = _ufun_spec("iet_get", ["Obj", "Val"], "Val")
+    if (CF, "to_string") not in ix.by_key:
+        ix.add(Contract(CF, "to_string", props=[], trusted=True, params={"d": "Val"}, result="Str",
+                        raises={"LenaValueError": "json_unserializable(d)"}, ensures=["result == json_canonical(d)"],
+                        notes="stand-in until P_ctx.py registers the verified contract of to_string (same vocabulary)"))
+    ix.add_class(ClassSpec("IncludeExcludeTree", IE, fields={}))
+    ix.add(Contract(IE, "IncludeExcludeTree.get", props=[], trusted=True,
+                    params={"self": "Self[IncludeExcludeTree]", "d": "Dict"}, result="Val",
+                    ensures=["result == iet_get(ident(self), d)"],
+                    notes="assumed: the selected part of a context is a function of the tree and the context's value; "
+                          "neither is changed"))
+    ix.add_class(ClassSpec("GroupBy", GB, fields={"groups": "KeyMap[V]", "_iet": "Inst[IncludeExcludeTree]"}))
+    KD = "iet_get(ident(self._iet), vctx(val))"
+    K = "json_canonical(%s)" % KD
+    G, G0 = "group(self.groups, %s)" % K, "old(group(self.groups, %s))" % K
+    ix.add(Contract(
+        GB, "GroupBy.fill", props=["C09"],
+        params={"self": "Self[GroupBy]", "val": "V"},
+        # `If a formatting key was not found for val ... LenaValueError is raised`
+        raises={"LenaValueError": "json_unserializable(%s)" % KD},
+        ensures=[
+            "has_group(self.groups, %s)" % K,
+            # `If no such key exists, a new group is created`
+            "not old(has_group(self.groups, %s)) implies len(%s) == 1 and %s[0] == val" % (K, G, G),
+            # otherwise the value is appended to its group: the earlier members stay, in order
+            "old(has_group(self.groups, %s)) implies len(%s) == len(%s) + 1 and %s[len(%s)] == val and "
+            "all(%s[i] == %s[i] for i in range(len(%s)))" % (K, G, G0, G, G0, G, G0, G0),
+            # every other group is untouched, no other key appears or disappears
+            "all_keys(lambda k: k == %s or (has_group(self.groups, k) == old(has_group(self.groups, k)) and "
+            "same(group(self.groups, k), old(group(self.groups, k)))))" % K],
+        modifies=["self.groups"]))
+    ix.add(Contract(
+        GB, "GroupBy.compute", props=["C09"],
+        params={"self": "Self[GroupBy]"}, generator=True, yields="Lst[V]",
+        loops={0: LoopSpec(invariant=[
+            "all_keys(lambda k: implies(seen(k), any(same(out[i], group(self.groups, k)) for i in range(len(out)))))"])},
+        # `Yield values groupped by distinct keys one by one`: every yield is the group of a key not yielded before ...
+        at_yield=["has_group(self.groups, _key)", "not seen(_key)", "same(yielded, group(self.groups, _key))"],
+        # ... and every group is yielded
+        ensures=["all_keys(lambda k: implies(has_group(self.groups, k), "
+                 "any(same(out[i], group(self.groups, k)) for i in range(len(out)))))"]))
+    ix.add(Contract(GB, "GroupBy.reset", props=["C09"],
+                    params={"self": "Self[GroupBy]"},
+                    ensures=["all_keys(lambda k: not has_group(self.groups, k))"],          # `Remove all groups`
+                    modifies=["self.groups"]))
+    # ---- C04 read literally (`every context yielded by a framework accumulator's compute() shares no mutable object with the
+    # context of any value that was filled`) FAILS for StoreFilled: the group is copied, the values -- and their context
+    # dictionaries -- are the very objects that were filled.  Not registered by default (it is a finding on the unchanged
+    # tree, see the report): P_ACC_FINDINGS=1 python3-vt tools/dbg.py lena/flow/elements.py "StoreFilled.compute#C04"
+    import os
+    if os.environ.get("P_ACC_FINDINGS"):
+        F1 = {"group": "PyList[1,Tuple[V,Dict]]", "_yield_as_a_group": "Bool"}
+        ix.add_class(ClassSpec("StoreFilled_g1", FE, fields=F1, alias_of="StoreFilled", invariant=["self._yield_as_a_group"]))
+        ix.add(Contract(FE, "StoreFilled.compute", qualkey="StoreFilled.compute#C04", props=["C04"],
+                        name="StoreFilled.compute[one (data, context) value, C04 clause]",
+                        params={"self": "Self[StoreFilled_g1]"}, generator=True, yields="Any",
+                        at_yield=["is_deep_copy(yielded[0][1])", "yielded[0][1] is not self.group[0][1]"]))
